@@ -3,6 +3,7 @@
 package verifrt
 
 import (
+	"runtime"
 	"encoding/hex"
 	"encoding/json"
 	"fmt"
@@ -143,6 +144,25 @@ func Observe(tag string, b []byte) {
 	Observed = append(Observed, tag+"="+hex.EncodeToString(b))
 }
 func AssumeCollisionFree() {}
-func AllocBudget(bytes int) {}
+var allocBudget int
+var allocStart uint64
+
+// AllocBudget starts measuring: AllocCheck later compares the bytes allocated since with the budget (with a
+// generous factor, because the Go runtime and reflect allocate bookkeeping of their own).
+func AllocBudget(bytes int) {
+	allocBudget = bytes
+	var m runtime.MemStats
+	runtime.ReadMemStats(&m)
+	allocStart = m.TotalAlloc
+}
+
+func AllocCheck() {
+	var m runtime.MemStats
+	runtime.ReadMemStats(&m)
+	if allocBudget > 0 && m.TotalAlloc-allocStart > uint64(64*allocBudget)+(1<<20) {
+		Failed = append(Failed, "allocation-proportional-to-input")
+	}
+}
 func MapCandidates(ids []uint32) {}
+func AllocSampling(small, large int) {}
 func Note(s string)        {}
